@@ -16,7 +16,7 @@
    Filter::matches for every filter of the filter vector (C11 is not repeated here). *)
 From Coq Require Import List NArith Bool Permutation.
 From AdltV Require Import Base.Res Base.MachInt Merge.Multi Merge.MultiProofs Filter.Sets Lifecycle.Model
-     Convert.Select Convert.SelectProofs Convert.OrderProofs Convert.SortInstance Exec.C14.
+     Convert.Select Convert.SelectProofs Convert.OrderProofs Convert.DetProofs Convert.SortInstance Exec.C14.
 Import ListNotations.
 Open Scope N_scope.
 
@@ -118,6 +118,21 @@ Proof.
   - intros sorter o res. exact (convert_file_order_irrelevant sorter _ _ o res P Hd).
 Qed.
 
+(* ... and when no two messages of different streams have the same reception time the heap has no choice at all:
+   the merged stream is a function of the arguments (no appeal to the determinism of std's BinaryHeap), hence
+   literally the same for every order of the file arguments *)
+Theorem C14_merge_deterministic_without_cross_stream_ties : forall args m1 m2,
+  InRange args -> NoCrossStreamTies args -> Merged args m1 -> Merged args m2 -> m1 = m2.
+Proof. exact merged_unique. Qed.
+
+Theorem C14_file_order_irrelevant_no_ties : forall args args' m m',
+  Permutation args args' -> DistinctFirst args -> InRange args -> NoCrossStreamTies args ->
+  Merged args m -> Merged args' m' -> m = m'.
+Proof.
+  intros args args' m m' P Hd Hb Hn H H'. apply (merged_unique args); auto.
+  apply (proj1 (proj2 (C14_file_order_irrelevant _ _ P Hd))). exact H'.
+Qed.
+
 (* Before the repair (commit 8cea3e4) the streams went into the merge in the order in which the partition created
    them, i.e. in the order of the file arguments: two files of different ECUs, first messages at different times. *)
 Definition streams_unordered (args : list arg) : list fstream := map normalize (partition_files (files_ok args)).
@@ -147,7 +162,7 @@ Definition nv_files : list file := map mk_file
 Definition nv_args : list arg := mk_args nv_files [Some 1; Some 2; Some 0; Some 1].
 Definition nv_opts : opts := mk_opts (1, 5, [2], [(0, true); (1, false)], false, 3, true).
 Example C14_nonvacuous :
-  InRange nv_args /\ DistinctFirst nv_args /\
+  InRange nv_args /\ DistinctFirst nv_args /\ NoCrossStreamTies nv_args /\
   exists r, Convert (fun l out => Permutation out l) nv_args nv_opts (Some r) /\
             map (fun x => (c_index x, c_uid x, c_lc x)) (r_screen r) = [(2, 20, 2); (5, 21, 2)] /\
             r_file r = Some (r_screen r) /\ r_processed r = 7.
@@ -157,6 +172,12 @@ Proof.
   { intros f g mf mg Hf Hg Ef Eg Hrt. cbn in Hf, Hg.
     destruct Hf as [<-|[<-|[<-|[<-|[]]]]], Hg as [<-|[<-|[<-|[<-|[]]]]]; try reflexivity;
       vm_compute in Ef, Eg; inversion Ef; inversion Eg; subst; vm_compute in Hrt; discriminate. }
+  split.
+  { exists (fun x => if c_ecu x =? 1 then 0%nat else 1%nat). split.
+    - vm_compute. repeat constructor.
+    - intros x y Hx Hy. vm_compute in Hx, Hy.
+      repeat (destruct Hx as [<-|Hx]); try contradiction; repeat (destruct Hy as [<-|Hy]); try contradiction;
+        vm_compute; intros E; first [reflexivity|discriminate]. }
   destruct (convert_first nv_args nv_opts) as [[r|]| |] eqn:E; try (vm_compute in E; discriminate).
   exists r. split; [apply convert_first_Convert; [exact Hb|reflexivity|exact E]|].
   vm_compute in E. inversion E; subst r. vm_compute. auto.
@@ -172,5 +193,7 @@ Print Assumptions C14_executable_run_is_a_run.
 Print Assumptions C14_sort_stage_is_buffer_sort.
 Print Assumptions C14_convert_selects_exactly_buffer_sort.
 Print Assumptions C14_file_order_irrelevant.
+Print Assumptions C14_merge_deterministic_without_cross_stream_ties.
+Print Assumptions C14_file_order_irrelevant_no_ties.
 Print Assumptions C14_unordered_streams_depend_on_arg_order.
 Print Assumptions C14_nonvacuous.
